@@ -7,7 +7,7 @@
 From Coq Require Import List Ascii String NArith Bool.
 From Coq Require Import Arith.
 From Martian.C14 Require Import Gen_HopByHop Gen_Stack Gen_Shared Model Proofs_Base Proofs_Stack Proofs_Spec
-  Proofs_Conc Proofs_Audit.
+  Proofs_Conc Proofs_Audit Proofs_Chain.
 Import ListNotations.
 
 Lemma gen_req_order : req_order = expected_req_order.
@@ -288,3 +288,49 @@ Proof.
   split; [exact split_on_nonempty|]. split; [exact to_upper_no_truncation|].
   split; [exact entry_names_needs_second_field | exact gen_res_order_request_only_free].
 Qed.
+
+(* ---------------- instance identity and chains ---------------- *)
+
+Lemma gen_boundary_random : 0 < boundary_random_bytes /\ 2 * boundary_random_bytes = 20.
+Proof. split; [unfold boundary_random_bytes; repeat constructor | reflexivity]. Qed.
+
+Lemma chain_is_chain_m : forall es h, chain es h = chain_m es h.
+Proof.
+  induction es as [|e es IH]; intros h; [reflexivity|].
+  simpl. rewrite stack_req_is_model. destruct (o_err (model_req e h)); [reflexivity|].
+  rewrite IH. reflexivity.
+Qed.
+
+Lemma s_identity :
+  (forall name b b', instance_tag name b = instance_tag name b' <-> b = b') /\
+  (forall eA eB, own_entry_ok eA = true -> e_self eA <> e_self eB ->
+     entry_names (e_self eB) (own_via eA) = false) /\
+  (forall e, own_entry_ok e = true -> entry_names (e_self e) (own_via e) = true) /\
+  (0 < boundary_random_bytes /\ 2 * boundary_random_bytes = 20).
+Proof.
+  split; [exact instance_tag_inj|]. split; [exact other_instance_not_named|].
+  split; [|exact gen_boundary_random].
+  intros e H. apply andb_true_iff in H as [H _]. exact H.
+Qed.
+
+Lemma s_chain_distinct : forall es h,
+  Forall (fun e => own_entry_ok e = true) es /\ NoDup (map e_self es) /\
+  bad_framing h = false /\ ~ is_hop h K_VIA /\
+  (forall e, In e es -> names_tag (e_self e) h = false) ->
+  Forall (fun o => o_err o = None /\ o_skip o = false /\ o_inner o = true) (chain es h) /\
+  List.length (chain es h) = List.length es /\
+  (forall d, es <> [] ->
+     joined (o_hdr (last (chain es h) d)) K_VIA =
+     fold_left (fun v e => append_to v (own_via e)) es (joined h K_VIA)).
+Proof. intros es h H. rewrite chain_is_chain_m. exact (chain_m_distinct es h H). Qed.
+
+Lemma s_chain_loop : forall es h e0 e',
+  Forall (fun e => own_entry_ok e = true) es /\ NoDup (map e_self es) /\
+  bad_framing h = false /\ ~ is_hop h K_VIA /\
+  (forall e, In e es -> names_tag (e_self e) h = false) ->
+  In e0 es -> e_self e' = e_self e0 ->
+  exists outs o, chain (es ++ [e']) h = outs ++ [o] /\
+    Forall (fun o => o_err o = None /\ o_skip o = false /\ o_inner o = true) outs /\
+    List.length outs = List.length es /\
+    o_err o = Some ELoop /\ o_skip o = true /\ o_inner o = false.
+Proof. intros es h e0 e' H Hin Ht. rewrite chain_is_chain_m. exact (chain_m_loop es h e0 e' H Hin Ht). Qed.
